@@ -79,6 +79,17 @@ theorem reader_getitem_eq_concat {β : Type} (src : Source (List β)) (h : SrcOK
       getItemB r it c = .ok (rows.map (selCols c)) :=
   Lemmas.getItemB_eq src h r hr it hd c hoff
 
+/-- Derived readers: `reader[:, c1][:, c2]…[item, c]` — successive deferred channel selections followed by
+an index with (or without) a further selector — returns NumPy's rows of the concatenation with the selections
+applied IN THE ORDER WRITTEN (`A[item][:, c1][:, c2]…[:, c]`, which is `A[:, c1][:, c2]…[item][:, c]`: row
+and column selection commute, two column selections do not). -/
+theorem reader_getitem_ops_eq_concat {β : Type} (src : Source (List β)) (h : SrcOK src)
+    (r : Reader (List β)) (hr : build src = some r) (it : Item) (hd : InDom src.concat.length it)
+    (ops : List ColSel) (hoff : src.backend = .cbin → it.isList = false) :
+    ∃ rows, npRows src.concat it = some rows ∧ rows ≠ [] ∧
+      getItemOps r it ops = .ok (rows.map (applyCols ops)) :=
+  Lemmas.getItemOps_eq src h r hr it hd ops hoff
+
 /-- "except on compressed files whose decoder does not offer it": an in-domain index list/array on a
 compressed file is REFUSED (the decoder's `NotImplementedError`, raised by the first `_get_part` call after
 `_get_subitems` has accepted the list) … -/
@@ -124,6 +135,10 @@ example : SrcOK exCbin := by
   exact ⟨rfl, by decide +kernel⟩
 example : (build exCbin).map (fun r => getItemB r (.list [0, 2]) .all) = some .refused := by decide +kernel
 example : (build exCbin).map (fun r => getItemB r (.int (-1)) .all) = some (.ok [[5, 6]]) := by decide +kernel
+/-- two successive channel selections do not commute: `[:, [1, 0]]` then `[:, [0]]` keeps channel 1 -/
+example : (build exFlat).map (fun r => getItemOps r (.int 0) [.idx [1, 0], .idx [0]]) = some (.ok [[2]]) ∧
+    (build exFlat).map (fun r => getItemOps r (.int 0) [.idx [0], .idx [1, 0]]) = some (.ok [[1]]) := by
+  decide +kernel
 /-- the open known finding, as the model has it: of two compressed files only the first is kept -/
 example : (build (.cbin [(⟨1, "int16", 10, [0, 2]⟩, [[1], [2]]), (⟨1, "int16", 10, [0, 1]⟩, [[3]])])).map
     (fun r => r.nSamples) = some (some 2) := by decide +kernel
